@@ -824,12 +824,17 @@ def host_getattr(interp, v, name):
             raise OutOfSubset("tuple.%s" % name)
     if isinstance(v, (int, SInt)) and name == "bit_length":
         raise OutOfSubset("int.bit_length")
+    if isinstance(v, SRef):
+        raise OutOfSubset("attribute %s of an opaque reference" % name)
     raise PyRaise(AttributeError("%r has no attribute %r" % (v, name)))
 
 
 def host_getitem(interp, v, k):
     if isinstance(v, _Environ):
         raise OutOfSubset("os.environ[...]")
+    if isinstance(v, SRef):
+        # an opaque reference stands for an object the contract says nothing about: what subscripting it does is unknown
+        raise OutOfSubset("subscript of an opaque reference")
     raise PyRaise(TypeError("%r is not subscriptable" % (v,)))
 
 
